@@ -85,15 +85,21 @@ def fill(claim, na):
           "recent, slot yields the latest once, closed sinks ignore writes).",
           "Trusted: MIR interpreter + models of VecDeque/Mutex/Arc/AtomicBool (sequential). Counterexamples are replayed through the public "
           "sink API. Not decided: end-to-end order from a model's output to the sink (coroutine), concurrent writers.", "DESIGN.md §5 C17")
-    claim("C06", "E2 mirse", E2_TECH,
+    claim("C06", "E2 mirse + E3 axc11", E2_TECH + "; the idle/park hand-off of the in-flight count: axiomatic C11 model checking (axc11) over the "
+          "events of run_local_worker and Executor::run executed from the MIR",
+          "(c) hand-off: with 2 (thorough 3) workers that have processed every message (symbolic per-thread counts summing to 0) going idle and "
+          "Executor::run checking the pool, NO C11-consistent execution returns UnprocessedMessages or panics. "
           "Reduced scope: (a) Simulation::run maps UnprocessedMessages(n) to Deadlock listing exactly the observed models with a non-empty "
           "mailbox (registration order, exact sizes) or to MessageLoss(n) when all are empty, for 0..4 observers with symbolic lengths; "
           "(b) SimInit::add_model / simulation::add_model / BuildContext::add_submodel register an observer under the fully qualified name "
           "(parent.child, '<unknown>' for empty names) for EVERY model of every hierarchy up to the bound, watching that model's own mailbox.",
           "Trusted: MIR interpreter; ProtoModel::build is a script adding the sub-models of the enumerated tree; Receiver/Sender are tokens. "
           "Counterexamples are replayed on a native hierarchical bench in which each model dead-locks on a query loop-back (1 and 3 threads). "
-          "NOT decided: the in-flight message counter (THREAD_MSG_COUNT, folding when workers park) and therefore 'never a false report on "
-          "any schedule or thread count'.", "DESIGN.md §5 C06")
+          "Hand-off part: each worker runs from the top of run_local_worker's loop to its first park with the injector empty, <= 1 (thorough 2) "
+          "CAS retries, Executor::run <= 2 idle checks, its activation preceding the deactivation attempts; witnesses are replayed by a native "
+          "stress run (harness/native/verif_c06_handoff.rs). NOT decided: the +-1 updates of the counter inside send/recv under real parallelism "
+          "(at task granularity they are exercised by the message-plane benches of C03/C12), workers re-activated during the hand-off.",
+          "DESIGN.md §5 C06")
     claim("C15", "E3 axc11 (on E2 mirse)",
           "axiomatic C11 model checking: each thread of a client program is executed symbolically on the crate's MIR (mirse), its atomic "
           "loads/stores/fences become events, and z3 searches for a reads-from / modification-order assignment consistent with the C11 "
@@ -105,20 +111,57 @@ def fill(claim, na):
           "the MIR interpreter. Bounded: the client programs; read()'s retry loop is represented by try_read outcomes. A solver witness "
           "becomes a VIOLATION only when loom (the repository's own seqlock loom tests + the same client program) reproduces a failure.",
           "DESIGN.md §5 C15")
-    claim("C12", "E2 mirse", E2_TECH,
-          "Reduced scope (sequential semantics, no wake-up clause): from EVERY valid queue state (capacities 1-4 incl. non powers of two, "
+    claim("C12", "E2 mirse + E3 axc11", E2_TECH + "; wake-ups: the message-plane benches (real send/recv coroutines, every task order); "
+          "C11: axiomatic model checking (axc11) of one push racing with one pop on the real Queue MIR, witnesses replayed under loom",
+          "(b) wake-ups: on acyclic benches with capacity-1/2 mailboxes, blocked senders and competing producers, no driver command ever stalls, "
+          "for every task order (a sender waiting for space and the receiver waiting for a message are resumed). (c) C11: for one producer "
+          "pushing a message while the consumer pops, reads and releases it (capacities 1-2, thorough 1-4) no C11-consistent execution has a "
+          "data race on a slot, reads a slot in the wrong state or pops a different message. "
+          "(a) sequential semantics: from EVERY valid queue state (capacities 1-4 incl. non powers of two, "
           "every fill level / dequeue index / closed flag, SYMBOLIC sequence counters — so also at the 2^64 wrap-around) each of push, pop, "
           "pop+drop, close keeps the representation invariant, push says Full iff capacity is reached (a borrowed slot is not reusable), "
           "pop yields the oldest message, len() equals the number held, closed queues refuse pushes but stay drainable, no arithmetic "
           "panic; plus every 6-operation sequence from Queue::new against a reference FIFO.",
           "Trusted: MIR interpreter, RecycleBox as an identity token, sequential atomics (compare_exchange_weak may fail spuriously once). "
           "Counterexamples are replayed on the real Queue<u64> by a cfg(test) module appended to the overlay that pokes the solver's "
-          "state into the private fields. NOT decided: the wake-up clauses (send/recv coroutines over async-event) and concurrent "
-          "producers under C11.", "DESIGN.md §5 C12")
-    pending = "check not built yet in this round (planned, see DESIGN.md §5); not claimed until it runs"
-    for p in ["C02", "C03", "C14"]:
-        na(p, pending)
-    na("C04", "The property is about the multi-threaded executor's idle/park hand-off on real threads (st3, parking); Kani has no "
-              "threads and the MIR engine has no model of blocking primitives; the single-threaded remainder would not justify the claim.")
-    na("C16", "The guarantee is the order of two awaits inside a compiler-generated coroutine driven by executor and mailbox; "
-              "coroutine state machines are outside what either engine can execute (DESIGN.md §2, §6).")
+          "state into the private fields. Wake-ups are decided at task-poll granularity only (a notification racing with a failed push/pop "
+          "on another thread is NOT explored; async-event/diatomic-waker are models). C11: NOT decided beyond one operation per thread "
+          "(slot reuse, several producers: thread-isolated path enumeration explodes on the retry loops).", "DESIGN.md §5 C12")
+    MP_TECH = ("symbolic execution of the crate's MIR, compiler-generated coroutines included (own executor 'mirse' over `rustc -Zunpretty=mir` of the "
+               "current tree, z3): benches of scripted models run on the real ports / broadcaster / channel / model-task code under a cooperative "
+               "executor model whose task picks are symbolic and decided by the solver; message data symbolic; counterexamples replayed on the "
+               "compiled crate with the same task schedule")
+    MP_NOTE = ("Trusted base: the MIR interpreter; the executor model (spawn = new ready task, run = poll one ready task at a time until none is "
+               "ready, then report the in-flight count as the real executors do); the user models (handler = script of port operations, each the "
+               "real Output::send / Requestor::send coroutine); models of async-event, diatomic-waker, multishot, recycle-box written after their "
+               "sources (vlib/mirse/asyncmodels.py). Granularity: tasks interleave at await points only - real parallelism, work stealing and "
+               "memory-ordering effects are NOT explored. Bounded: the listed benches (<= 5 models, capacities 1-2, <= 4 operations per handler, "
+               "<= 3 driver commands). A counterexample becomes a VIOLATION only when the same bench, polled in the counterexample's task order "
+               "inside the compiled crate (harness/native/verif_sched_tail.rs) or run on the real executors with 1/2/4 threads "
+               "(harness/native/verif_bench.rs), violates the same obligation.")
+    claim("C02", "E2 mirse (message plane)", MP_TECH,
+          "For every bench (causal triangle incl. saturated capacity-1 mailboxes, broadcast fan-out with forwarding, diamond with competing "
+          "suspended senders, init-time sends, queries with sending repliers) and EVERY order in which ready tasks can be polled: whenever the "
+          "delivery of M1 to B happens before the delivery of M3 to B (program order of completed port operations in one handler, "
+          "send-to-processing edges; deliveries of one broadcast mutually unordered), B processes M1 first.", MP_NOTE, "DESIGN.md §5 C02")
+    claim("C03", "E2 mirse (message plane)", MP_TECH,
+          "At the end of every driver command that returned Ok, every message sent so far was processed exactly once by each recipient whose "
+          "connection (plain / map / filter_map with a symbolic accept bit, several ports, late connections through clones) accepts it and by "
+          "nobody else, every handler ran to completion, nothing was invented; no panic in the message plane - for volumes above the mailbox "
+          "capacities, blocked senders, scheduler-origin and model-origin sends, every task order.", MP_NOTE, "DESIGN.md §5 C03")
+    claim("C14", "E2 mirse (message plane)", MP_TECH,
+          "A query returns exactly the replies 1000*(replier+1)+request of the repliers whose connection accepts it, in connection order, and only "
+          "after every such replier has finished, for 0-2 (thorough 0-3) repliers with filtered subsets, yielding repliers (all completion orders "
+          "and re-polls), partly consumed reply iterators followed by another query; handles cloned before/after connecting and connections added "
+          "later through a fresh clone serve every subsequent send of every clone.", MP_NOTE +
+          " NOT decided: TaskSet / CachedRwLock under real concurrency (sequential semantics of their atomics here).", "DESIGN.md §5 C14")
+    claim("C16", "E2 mirse (message plane)", MP_TECH,
+          "On the real model task of simulation::add_model (init().await then the receive loop) and SimInit::init: every model's init runs "
+          "exactly once, inside SimInit::init, before that model processes any message, for benches whose init scripts send to models that are "
+          "not initialised yet (the messages are kept and processed afterwards: C03's obligations on the same runs), every task order. The naming "
+          "clause (parent.child) is decided in C06.", MP_NOTE + " Sub-model hierarchies are covered by C06's registration scenario only.",
+          "DESIGN.md §5 C16")
+    na("C04", "The property is about the executors themselves: the multi-threaded idle/park hand-off, work stealing and parking on real threads "
+              "(st3, parking) and the equivalence of the two executors. Kani has no threads; the MIR engine replaces the executor by a model "
+              "(run-to-quiescence is what that model assumes), and the one executor hand-off that could be encoded (the in-flight count at the "
+              "idle transition) is decided under C06. The rest cannot be encoded within reach (DESIGN.md §6).")
